@@ -79,11 +79,20 @@ class Execution:
                 point(tid)
             return local
 
+        def local_op(frame, event, arg):
+            if event == "opcode":
+                point(tid)
+            return local_op
+
         def tracer(frame, event, arg):
             if event == "call" and MARK in frame.f_code.co_filename:
                 if gran == "call":
                     point(tid)
                     return None
+                if gran == "opcode":
+                    frame.f_trace_opcodes = True
+                    frame.f_trace_lines = False
+                    return local_op
                 return local
             return None
         try:
